@@ -110,6 +110,8 @@ def run(F, chk):
     R1 = chk.rule('R1', 'exactly one Message::Text reply on every normal path of the command handler (search helper summarised: Ok => 1, Err => 0)')
     R2 = chk.rule('R2', 'no unguarded unwrap/expect of a parse-like result of request text in the handler and its helpers')
     R3 = chk.rule('R3', 'close: file context taken first, drain loop left only on Disconnected, all thread handles joined before the reply')
+    R4 = chk.rule('R4', 'integers parsed from the request reach allocation sizes, slice indices/range bounds and checked multiplications only behind a bound')
+    check_client_integers(F, R4)
     hs = find_handler(F)
     R1.floor('command handler (anchor: fn(.., String, &mut Option<FileContext>, &mut WebSocket))', len(hs), 1)
     for h in hs:
@@ -295,3 +297,122 @@ def check_close(F, h, R3):
             R3.ok(sample={'joins_after_drain_on_all_paths': uncond, 'total_join_sites': len(joins)})
         else:
             R3.violation(('close-join-missing', h.path), 'after the drain loop only %d thread join(s) happen on all paths (expected parse and lifecycle thread at least)' % uncond, where=h.loc(None))
+
+
+# ---------------------------------------------------------------------------------------------
+# R4: integers supplied by the client never reach a panic-capable sink unbounded
+
+CLIENT_INT = re.compile(r'(Value::as_u64|Value::as_i64|Value::as_f64|Number::as_u64|Number::as_i64|Number::as_f64|str::<impl str>::parse|from_str_radix)$')
+R4_ALLOC = re.compile(r'::(with_capacity|with_capacity_and_hasher|reserve|reserve_exact|resize|from_elem|with_capacity_in)$')
+
+
+def check_client_integers(F, R4):
+    """Taint rule over the remote module of the binary: a value whose (intraprocedural, backward) data provenance contains an
+    integer parsed from request text / JSON must not reach
+      (a) an allocation size            without min()/clamp or a dominating upper bound,
+      (b) a slice index / range bound   without a dominating `idx < len` / `start <= len` test (an index produced by
+                                        Iterator::position, or loaded from a collection, is not client-valued),
+      (c) a checked multiplication      without a dominating upper bound (overflow panics in builds with overflow checks).
+    Each of them panics in the connection thread: no reply, connection reset."""
+    from prov import Prov, calls_in
+    from facts import Operand
+    import guards
+    n = 0
+    bodies = [b for b in F.order if b.crate == 'bin' and b.path.startswith('adlt_bin::remote::') and '::tests::' not in b.path]
+    R4.floor('functions of the remote module', len(bodies), 20)
+    for b in bodies:
+        cfg = pr = E = None
+        for blk in b.blocks:
+            if blk.cleanup:
+                continue
+            t = blk.term
+            ops = []
+            kind = None
+            if t.k == 'call' and R4_ALLOC.search(t.callee.path):
+                ops = [a for a in t.args if (a.ty or '') in ('usize', 'u64', 'u32')]
+                kind = 'alloc'
+            elif t.k == 'call' and re.search(r'::(index|index_mut)$', t.callee.path) and len(t.args) > 1 and re.search(r'(Vec<|\[|VecDeque<)', t.args[0].ty or ''):
+                ops = [t.args[1]]
+                kind = 'index'
+            elif t.k == 'assert' and t.d['ak'] == 'BoundsCheck':
+                ops = [Operand(t.d['ops'][1])]
+                kind = 'index'
+            elif t.k == 'assert' and t.d['ak'] == 'Overflow(Mul)':
+                ops = [Operand(o) for o in t.d['ops']]
+                kind = 'mul'
+            if not ops:
+                continue
+            if cfg is None:
+                cfg = CFG(b)
+                pr = Prov(cfg)
+                E = ExprBuilder(cfg, fold_named=True)
+            toks = set()
+            for a in ops:
+                toks |= pr.operand(a, at=blk.i)
+            src = sorted(set(c.split('::')[-1] for c in calls_in(toks) if CLIENT_INT.search(c)))
+            if not src:
+                continue
+            exprs = [E.operand(a) for a in ops]
+            txt = ' '.join(show(x) for x in exprs)
+            # not client-valued: an index found by position(), or a value loaded out of a collection
+            if kind == 'index':
+                top = exprs[0]
+                while isinstance(top, tuple) and top[0] in ('cast', 'ref'):
+                    top = top[1]
+                if isinstance(top, tuple) and top[0] == 'proj' and isinstance(top[1], tuple) and top[1][0] == 'call' and \
+                        re.search(r'(Iterator::position|Iterator::rposition|::index|::binary_search\w*)$', top[1][1]):
+                    continue
+                if 'Iterator::position(' in show(top)[:40]:
+                    continue
+            n += 1
+            R4.sites += 1
+            R4.fn(b.path)
+            why = None
+            known = guards.known(cfg, E, blk.i)
+            if kind in ('alloc', 'mul'):
+                if 'cmp::min(' in txt or 'Ord::min(' in txt or any(re.search(r'(cmp::min|Ord::min|::clamp|saturating_mul|checked_mul)$', c) for c in calls_in(toks)):
+                    why = 'clamped with min()/clamp'
+                for (c, truth, D) in known:
+                    if truth is True and isinstance(c, tuple) and c[0] == 'bin':
+                        for ex_ in exprs:
+                            se = show(ex_)
+                            if (c[1] in ('Lt', 'Le') and show(c[2]) == se) or (c[1] in ('Gt', 'Ge') and show(c[3]) == se):
+                                why = 'upper bound ' + show(c)[:80]
+            else:
+                idx = exprs[0]
+                parts = [idx]
+                if isinstance(idx, tuple) and idx[0] == 'agg':
+                    parts = list(idx[2])
+                need = [p_ for p_ in parts if fold_const(p_) is None]
+                okp = 0
+                for p_ in need:
+                    sp = show(p_)
+                    for (c, truth, D) in known:
+                        if truth is True and isinstance(c, tuple) and c[0] == 'bin':
+                            if (c[1] in ('Lt', 'Le') and show(c[2]) == sp) or (c[1] in ('Gt', 'Ge') and show(c[3]) == sp):
+                                other = c[3] if show(c[2]) == sp else c[2]
+                                so = show(other)
+                                if 'len(' in so or 'PtrMetadata' in so or '_len' in so or 'len' in so:
+                                    okp += 1
+                                    why = 'bounded: ' + show(c)[:80]
+                                    break
+                if need and okp < len(need):
+                    why = None
+                if not need:
+                    why = 'constant bounds'
+            if why:
+                R4.ok(sample={'function': b.path, 'at': b.loc(t.sp), 'sink': kind, 'value': txt[:70], 'client_source': src, 'discharged_by': why})
+            else:
+                what = {'alloc': 'sizes an allocation', 'index': 'is used as slice index / range bound', 'mul': 'is multiplied (checked)'}[kind]
+                R4.violation(('client-integer-' + kind, b.closure_of or b.path, re.sub(r'_\d+', '_', txt)[:40]),
+                             'an integer taken from the request (%s) %s at %s (%s) without a dominating bound: a crafted command panics the connection thread (no reply, connection reset)' %
+                             (', '.join(src), what, b.loc(t.sp), txt[:80]), where=b.loc(t.sp))
+    R4.floor('client-valued sinks (allocation / index / multiplication) in the remote module', n, 2)
+
+
+def fold_const(e):
+    if isinstance(e, tuple) and e[0] == 'const':
+        return e[1]
+    if isinstance(e, tuple) and e[0] == 'cast':
+        return fold_const(e[1])
+    return None
